@@ -271,7 +271,7 @@ def classify(name, sect, is_const=None, opt_sects=None):
     base = re.sub(r"\.\d+$", "", name)
     if sect is not None and RELRO_SECT.match(sect): return "relro"
     if is_const: return "relro"
-    if TABLE_RE.match(base) and (sect is None or sect.startswith(".data")): return "table"
+    if TABLE_RE.match(base): return "table"
     if opt_sects and all(RO_SECT.match(x) for x in opt_sects): return "unwritten"
     return "mutable"
 
